@@ -135,8 +135,11 @@ def _case(draw, ctx):
     if draw(st.booleans()):
         spec = draw(S.circuit_spec(min_inputs=1, max_inputs=4, min_gates=1, max_gates=8, max_fanin=3,
                                    io_outputs=draw(st.booleans())))
-        ins = [x[0] for x in spec["nodes"] if x[1] == "input" and not x[3]]
-        outs = [x[0] for x in spec["nodes"] if x[3] and x[1] != "input"]
+        # one case in three also offers feed-through ports (inputs marked as outputs) to the pairing, on
+        # either side or both: "every injective pairing of outputs to inputs" includes them
+        ft = draw(st.integers(0, 2)) == 0
+        ins = [x[0] for x in spec["nodes"] if x[1] == "input" and (ft or not x[3])]
+        outs = [x[0] for x in spec["nodes"] if x[3] and (ft or x[1] != "input")]
         m = draw(st.integers(0, min(len(ins), len(outs))))
         ks = draw(st.lists(st.sampled_from(outs), min_size=m, max_size=m, unique=True)) if m else []
         vs = draw(st.lists(st.sampled_from(ins), min_size=m, max_size=m, unique=True)) if m else []
